@@ -23,6 +23,7 @@ use std::time::Duration;
 pub enum Task {
     CycleA,
     CycleB,
+    CycleC,
     RegisterRead,
     SdoRead,
     SdoWrite,
@@ -33,7 +34,9 @@ pub struct C20Harness {
     pub label: String,
     pub tasks: Vec<Task>,
     pub frames: usize,
-    pub baseline: OnceLock<Vec<String>>,
+    /// also explore "a frame in flight is held longer than its sender waits" (one Env deviation each)
+    pub late: bool,
+    pub baseline: OnceLock<Vec<Vec<String>>>,
     pub seq_effects: OnceLock<String>,
 }
 
@@ -41,10 +44,12 @@ pub struct C20Harness {
 struct Groups {
     a: SubDeviceGroup<4, 16>,
     b: SubDeviceGroup<4, 16>,
+    c: SubDeviceGroup<4, 16>,
 }
 
 fn segment() -> Segment {
-    // devices 0,1: group A (plain I/O); device 2: group B with a CoE mailbox; device 3: group B
+    // devices 0,1: group A (plain I/O); device 2: group B with a CoE mailbox; device 3: group B;
+    // devices 4,5: group C (plain I/O)
     let mut devs = vec![
         Device::new(simple_io(0x8000, &[8, 8], &[8]).image()),
         Device::new(simple_io(0x8001, &[8], &[8, 8]).image()),
@@ -61,6 +66,8 @@ fn segment() -> Segment {
     dev2.coe = Some(coe);
     devs.push(dev2);
     devs.push(Device::new(simple_io(0x8003, &[8], &[8]).image()));
+    devs.push(Device::new(simple_io(0x8004, &[8, 8], &[8, 8]).image()));
+    devs.push(Device::new(simple_io(0x8005, &[8], &[8]).image()));
     let mut seg = Segment::new(devs);
     for (i, d) in seg.devices.iter_mut().enumerate() {
         for k in 0..4 {
@@ -71,31 +78,33 @@ fn segment() -> Segment {
     seg
 }
 
-fn bring_up(frames: usize) -> Result<(Net, SubDeviceGroup<4, 16, ethercrab::DefaultLock, ethercrab::subdevice_group::Op>, SubDeviceGroup<4, 16, ethercrab::DefaultLock, ethercrab::subdevice_group::Op>), String> {
+fn bring_up(frames: usize) -> Result<(Net, [Op; 3]), String> {
     let mut net = Net::with_frames(segment(), timeouts(), RetryBehaviour::None, frames.max(2), 1100);
     let md = net.md();
     let r = net.run(async move {
         let g = md
-            .init::<8, _>(|| 0, Groups::default(), |g, sd| if sd.identity().product_id <= 0x8001 { Ok(&g.a) } else { Ok(&g.b) })
+            .init::<8, _>(|| 0, Groups::default(), |g, sd| match sd.identity().product_id {
+                0x8000 | 0x8001 => Ok(&g.a),
+                0x8002 | 0x8003 => Ok(&g.b),
+                _ => Ok(&g.c),
+            })
             .await?;
         let a = g.a.into_op(md).await?;
         let b = g.b.into_op(md).await?;
-        Ok::<_, Error>((a, b))
+        let c = g.c.into_op(md).await?;
+        Ok::<_, Error>([a, b, c])
     });
     match r {
-        Ok(Ok((a, b))) => {
+        Ok(Ok(gs)) => {
             // the application's outputs
-            for (k, sd) in a.iter(md).enumerate() {
-                for (j, o) in sd.outputs_raw_mut().iter_mut().enumerate() {
-                    *o = 0x10 + (k * 4 + j) as u8;
+            for (gi, g) in gs.iter().enumerate() {
+                for (k, sd) in g.iter(md).enumerate() {
+                    for (j, o) in sd.outputs_raw_mut().iter_mut().enumerate() {
+                        *o = 0x10 + (gi * 0x50 + k * 4 + j) as u8;
+                    }
                 }
             }
-            for (k, sd) in b.iter(md).enumerate() {
-                for (j, o) in sd.outputs_raw_mut().iter_mut().enumerate() {
-                    *o = 0x60 + (k * 4 + j) as u8;
-                }
-            }
-            Ok((net, a, b))
+            Ok((net, gs))
         }
         o => Err(format!("bring-up failed: {:?}", o.map(|r| r.map(|_| ())))),
     }
@@ -103,54 +112,49 @@ fn bring_up(frames: usize) -> Result<(Net, SubDeviceGroup<4, 16, ethercrab::Defa
 
 type Op = SubDeviceGroup<4, 16, ethercrab::DefaultLock, ethercrab::subdevice_group::Op>;
 
-fn task_future<'a>(t: Task, md: &'static ethercrab::MainDevice<'static>, a: &'a Op, b: &'a Op) -> Pin<Box<dyn Future<Output = String> + 'a>> {
+fn cycle<'a>(g: &'a Op, md: &'static ethercrab::MainDevice<'static>) -> Pin<Box<dyn Future<Output = Vec<String>> + 'a>> {
+    Box::pin(async move {
+        let mut out = Vec::new();
+        for _ in 0..2 {
+            match g.tx_rx(md).await {
+                Ok(r) => {
+                    let ins: Vec<Vec<u8>> = g.iter(md).map(|sd| sd.inputs_raw().to_vec()).collect();
+                    out.push(format!("wkc {} states {:?} inputs {:02x?}", r.working_counter, r.subdevice_states, ins));
+                }
+                Err(e) => out.push(format!("ERR {:?}", e)),
+            }
+        }
+        out
+    })
+}
+
+/// One task: a list of operations, one result string each.
+fn task_future<'a>(t: Task, md: &'static ethercrab::MainDevice<'static>, gs: &'a [Op; 3]) -> Pin<Box<dyn Future<Output = Vec<String>> + 'a>> {
+    let [a, b, c] = gs;
     match t {
-        Task::CycleA => Box::pin(async move {
-            let mut out = String::new();
-            for _ in 0..2 {
-                match a.tx_rx(md).await {
-                    Ok(r) => {
-                        let ins: Vec<Vec<u8>> = a.iter(md).map(|sd| sd.inputs_raw().to_vec()).collect();
-                        out += &format!("wkc {} states {:?} inputs {:02x?}; ", r.working_counter, r.subdevice_states, ins);
-                    }
-                    Err(e) => out += &format!("ERR {:?}; ", e),
-                }
-            }
-            out
-        }),
-        Task::CycleB => Box::pin(async move {
-            let mut out = String::new();
-            for _ in 0..2 {
-                match b.tx_rx(md).await {
-                    Ok(r) => {
-                        let ins: Vec<Vec<u8>> = b.iter(md).map(|sd| sd.inputs_raw().to_vec()).collect();
-                        out += &format!("wkc {} states {:?} inputs {:02x?}; ", r.working_counter, r.subdevice_states, ins);
-                    }
-                    Err(e) => out += &format!("ERR {:?}; ", e),
-                }
-            }
-            out
-        }),
+        Task::CycleA => cycle(a, md),
+        Task::CycleB => cycle(b, md),
+        Task::CycleC => cycle(c, md),
         Task::RegisterRead => Box::pin(async move {
             let sd = a.subdevice(md, 1).expect("sd");
             let r1 = sd.register_read::<u16>(0x0010u16).await;
             let r2 = sd.register_read::<u8>(0x0f80u16).await;
-            format!("{:x?} {:x?}", r1, r2)
+            vec![format!("{:x?}", r1), format!("{:x?}", r2)]
         }),
         Task::SdoRead => Box::pin(async move {
             let sd = b.subdevice(md, 0).expect("sd");
             let r1 = sd.sdo_read::<u32>(0x2000, 1).await;
             let r2 = sd.sdo_read::<[u8; 30]>(0x2001, 0).await;
-            format!("{:x?} {:x?}", r1, r2.map(|v| v.to_vec()))
+            vec![format!("{:x?}", r1), format!("{:x?}", r2.map(|v| v.to_vec()))]
         }),
         Task::SdoWrite => Box::pin(async move {
             let sd = b.subdevice(md, 0).expect("sd");
             let r1 = sd.sdo_write(0x3000, 1, 0xa1b2u16).await;
-            format!("{:?}", r1)
+            vec![format!("{:?}", r1)]
         }),
         Task::Status => Box::pin(async move {
             let sd = a.subdevice(md, 0).expect("sd");
-            format!("{:?}", sd.status().await)
+            vec![format!("{:?}", sd.status().await)]
         }),
     }
 }
@@ -165,16 +169,21 @@ fn device_effects(net: &Net) -> String {
 
 impl C20Harness {
     pub fn new(label: &str, tasks: Vec<Task>, frames: usize) -> Self {
-        Self { label: label.into(), tasks, frames, baseline: OnceLock::new(), seq_effects: OnceLock::new() }
+        Self { label: label.into(), tasks, frames, late: false, baseline: OnceLock::new(), seq_effects: OnceLock::new() }
+    }
+
+    pub fn late(mut self) -> Self {
+        self.late = true;
+        self
     }
 
     /// Device effects after the tasks ran one after the other on one fresh network.
     fn sequential_effects(&self) -> &String {
         self.seq_effects.get_or_init(|| {
-            let (mut net, a, b) = bring_up(8).expect("baseline bring-up");
+            let (mut net, gs) = bring_up(8).expect("baseline bring-up");
             let md = net.md();
             for t in &self.tasks {
-                let fut = task_future(*t, md, &a, &b);
+                let fut = task_future(*t, md, &gs);
                 let _ = net.run(fut);
             }
             device_effects(&net)
@@ -182,22 +191,26 @@ impl C20Harness {
     }
 
     /// Each task alone on a fresh identical network.
-    fn baseline(&self) -> &Vec<String> {
+    fn baseline(&self) -> &Vec<Vec<String>> {
         self.baseline.get_or_init(|| {
             self.tasks
                 .iter()
                 .map(|t| {
-                    let (mut net, a, b) = bring_up(8).expect("baseline bring-up");
+                    let (mut net, gs) = bring_up(8).expect("baseline bring-up");
                     let md = net.md();
-                    let fut = task_future(*t, md, &a, &b);
+                    let fut = task_future(*t, md, &gs);
                     match net.run(fut) {
                         Ok(s) => s,
-                        Err(e) => format!("BASELINE-STOP {:?}", e),
+                        Err(e) => vec![format!("BASELINE-STOP {:?}", e)],
                     }
                 })
                 .collect()
         })
     }
+}
+
+fn is_cycle(t: Task) -> bool {
+    matches!(t, Task::CycleA | Task::CycleB | Task::CycleC)
 }
 
 impl Harness for C20Harness {
@@ -208,7 +221,7 @@ impl Harness for C20Harness {
     fn run(&self, ctx: &mut Ctx) -> RunResult {
         let base = self.baseline().clone();
         let mut violations = Vec::new();
-        let (mut net, a, b) = match bring_up(self.frames) {
+        let (mut net, gs) = match bring_up(self.frames) {
             Ok(x) => x,
             Err(e) => {
                 return RunResult { violations: vec![Violation { signature: "bring-up-failed".into(), message: e }], outcome: "bring-up failed".into(), nontrivial: false };
@@ -220,7 +233,7 @@ impl Harness for C20Harness {
             seg.keep_logs = true;
             seg.frame_log.clear();
         }
-        let futs: Vec<Pin<Box<dyn Future<Output = String> + '_>>> = self.tasks.iter().map(|t| task_future(*t, md, &a, &b)).collect();
+        let futs: Vec<Pin<Box<dyn Future<Output = Vec<String>> + '_>>> = self.tasks.iter().map(|t| task_future(*t, md, &gs)).collect();
         let ctxp: *mut Ctx = ctx;
         let mut polls = 0u64;
         let mut pick = |n: usize| -> usize {
@@ -228,24 +241,50 @@ impl Harness for C20Harness {
             unsafe { (*ctxp).choose(Kind::Env, n) }
         };
         let mut deliver = |n: usize| -> usize { unsafe { (*ctxp).choose(Kind::Env, n) } };
-        let r = run_many(&mut net, futs, &mut pick, &mut deliver, 5_000);
+        let mut held = 0u32;
+        let r = run_many(&mut net, futs, &mut pick, &mut deliver, 5_000, self.late, &mut held);
         let outcome;
+        let mut any_timeout = false;
         match r {
             Ok(results) => {
                 let mut parts = Vec::new();
                 for (i, res) in results.iter().enumerate() {
-                    let got = res.clone().unwrap_or_else(|| "unfinished".into());
-                    ctx.log(|| format!("task {:?} -> {}", self.tasks[i], got));
-                    if got != base[i] {
-                        let kind = if got.contains("ERR") || got.contains("Err(") { "fails" } else { "differs" };
-                        violations.push(Violation {
-                            signature: format!("task-result-{} task={:?}", kind, self.tasks[i]),
-                            message: format!("task {:?} sharing the MainDevice with {:?} returned {}, alone it returns {} ({} frame slots)", self.tasks[i], self.tasks, got, base[i], self.frames),
-                        });
-                        parts.push(format!("{:?}:{}", self.tasks[i], kind));
-                    } else {
-                        parts.push(format!("{:?}:same", self.tasks[i]));
+                    let got = res.clone().unwrap_or_else(|| vec!["unfinished".into()]);
+                    ctx.log(|| format!("task {:?} -> {:?}", self.tasks[i], got));
+                    // A frame held past its sender's deadline (only when the explorer chose so) makes that
+                    // operation time out. Nothing else may change: operations before it, every operation of
+                    // other tasks, and later process-data cycles (stateless) of the same task.
+                    let mut kind = "same";
+                    let mut timed_out = false;
+                    if got.len() != base[i].len() {
+                        kind = "differs";
                     }
+                    for (k, g) in got.iter().enumerate() {
+                        if kind != "same" {
+                            break;
+                        }
+                        let want = base[i].get(k).cloned().unwrap_or_default();
+                        if *g == want {
+                            continue;
+                        }
+                        if held > 0 && g.contains("Timeout") {
+                            timed_out = true;
+                            any_timeout = true;
+                            continue;
+                        }
+                        if timed_out && !is_cycle(self.tasks[i]) {
+                            // a mailbox exchange after an abandoned one depends on what the device still holds
+                            continue;
+                        }
+                        kind = if g.contains("ERR") || g.contains("Err(") { "fails" } else { "differs" };
+                    }
+                    if kind != "same" {
+                        violations.push(Violation {
+                            signature: format!("task-result-{} task={:?}{}", kind, self.tasks[i], if held > 0 { " after-held-frame" } else { "" }),
+                            message: format!("task {:?} sharing the MainDevice with {:?} returned {:?}, alone it returns {:?} ({} frame slots, {} frame(s) held past a deadline)", self.tasks[i], self.tasks, got, base[i], self.frames, held),
+                        });
+                    }
+                    parts.push(format!("{:?}:{}", self.tasks[i], if timed_out && kind == "same" { "timeout-only" } else { kind }));
                 }
                 outcome = parts.join(" ");
             }
@@ -258,15 +297,15 @@ impl Harness for C20Harness {
                 outcome = "stuck".into();
             }
         }
-        if !net.rx_errors.is_empty() {
+        if !net.rx_errors.is_empty() && held == 0 {
             violations.push(Violation { signature: format!("response-rejected {}", net.rx_errors[0].chars().take(24).collect::<String>()), message: format!("receive side rejected frames: {:?}", net.rx_errors) });
         }
-        // effects on the devices must be the union of what the tasks do alone
+        // effects on the devices must be what the tasks produce one by one
         let eff = device_effects(&net);
         ctx.log(|| format!("effects {}", eff));
         ctx.transitions += polls;
         let want = self.sequential_effects();
-        if &eff != want && violations.is_empty() {
+        if &eff != want && violations.is_empty() && !any_timeout {
             violations.push(Violation {
                 signature: "device-effects-differ".into(),
                 message: format!("after {:?} ran concurrently the devices hold {}, after the same tasks one by one they hold {}", self.tasks, eff, want),
@@ -274,13 +313,13 @@ impl Harness for C20Harness {
         }
         // the wire schedule (which datagrams shared which frame, in which order) identifies the state reached
         let wire: String = net.seg.borrow().frame_log.iter().map(|f| f.iter().map(|d| format!("{:02x}:{:04x}:{:04x}:{}", d.cmd, d.adp, d.ado, d.sent.len())).collect::<Vec<_>>().join("+")).collect::<Vec<_>>().join("|");
-        ctx.state_hashes.push(crate::core::fnv(wire.as_bytes()));
+        ctx.state_hashes.push(crate::core::fnv(format!("{}#{}", wire, held).as_bytes()));
         let _ = Duration::ZERO;
         RunResult { violations, outcome, nontrivial: true }
     }
 
     fn params(&self) -> serde_json::Value {
-        json!({"engine": "c20", "label": self.label, "tasks": format!("{:?}", self.tasks), "frames": self.frames})
+        json!({"engine": "c20", "label": self.label, "tasks": format!("{:?}", self.tasks), "frames": self.frames, "late": self.late})
     }
 }
 
@@ -288,16 +327,23 @@ pub fn harnesses(thorough: bool) -> Vec<(C20Harness, Vec<Bound>)> {
     let t2: Vec<Bound> = (0..=4).map(Bound::total).collect();
     let t3: Vec<Bound> = (0..=6).map(Bound::total).collect();
     let b = if thorough { t3.clone() } else { t2.clone() };
+    let tl: Vec<Bound> = (0..=if thorough { 4 } else { 3 }).map(Bound::total).collect();
     let mut v = vec![
         (C20Harness::new("c20-cycleA+cycleB-N2", vec![Task::CycleA, Task::CycleB], 2), b.clone()),
+        (C20Harness::new("c20-cycleA+cycleB+cycleC-N4", vec![Task::CycleA, Task::CycleB, Task::CycleC], 4), t2.clone()),
         (C20Harness::new("c20-cycleA+cycleB+regread-N4", vec![Task::CycleA, Task::CycleB, Task::RegisterRead], 4), b.clone()),
         (C20Harness::new("c20-cycleA+sdoread+regread-N4", vec![Task::CycleA, Task::SdoRead, Task::RegisterRead], 4), t2.clone()),
         (C20Harness::new("c20-cycleB+sdoread-N2", vec![Task::CycleB, Task::SdoRead], 2), t2.clone()),
-        (C20Harness::new("c20-status+cycleB+sdowrite-N4", vec![Task::Status, Task::CycleB, Task::SdoWrite], 4), t2.clone()),
+        (C20Harness::new("c20-status+cycleC+sdowrite-N4", vec![Task::Status, Task::CycleC, Task::SdoWrite], 4), t2.clone()),
+        // a frame may be held past its sender's deadline: the late response must reach nobody
+        (C20Harness::new("c20-late-cycleA+cycleB-N2", vec![Task::CycleA, Task::CycleB], 2).late(), tl.clone()),
+        (C20Harness::new("c20-late-cycleC+regread+status-N4", vec![Task::CycleC, Task::RegisterRead, Task::Status], 4).late(), tl.clone()),
+        (C20Harness::new("c20-late-cycleB+sdoread-N4", vec![Task::CycleB, Task::SdoRead], 4).late(), tl.clone()),
     ];
     if thorough {
         v.push((C20Harness::new("c20-4tasks-N16", vec![Task::CycleA, Task::CycleB, Task::RegisterRead, Task::SdoRead], 16), t2.clone()));
-        v.push((C20Harness::new("c20-4tasks-N4", vec![Task::CycleA, Task::CycleB, Task::Status, Task::SdoWrite], 4), t2));
+        v.push((C20Harness::new("c20-4tasks-N4", vec![Task::CycleA, Task::CycleC, Task::Status, Task::SdoWrite], 4), t2.clone()));
+        v.push((C20Harness::new("c20-late-3cycles-N4", vec![Task::CycleA, Task::CycleB, Task::CycleC], 4).late(), tl));
     }
     v
 }
@@ -308,7 +354,7 @@ pub fn harness_by_label(label: &str) -> Option<Box<dyn Harness>> {
 
 pub fn c20(tier: &Tier) -> Result<i32, String> {
     let mut rep = Report::new("C20", "model_checking", tier);
-    rep.rule = "2..=4 cooperative tasks (process-data cycles of two groups, register reads, status, SDO read and SDO write on different SubDevices) on one MainDevice against a 4-device segment in 2 groups; at every step the explorer chooses which ready task is polled or which in-flight frame is delivered; stateless DFS with iterative deviation bounding from the FIFO schedule; every execution runs the real stack; each task's result is compared with the same task running alone on an identical segment; storage of 2, 4 or 16 frame slots; non-trivial = every execution (at least two tasks overlap)".into();
+    rep.rule = "2..=4 cooperative tasks (process-data cycles of three groups, register reads, status, SDO read and SDO write on different SubDevices) on one MainDevice against a 6-device segment in 3 groups; at every step the explorer chooses which ready task is polled or which in-flight frame is delivered; stateless DFS with iterative deviation bounding from the FIFO schedule; every execution runs the real stack; each task's result is compared with the same task running alone on an identical segment; storage of 2, 4 or 16 frame slots; the 'late' harnesses add the choice 'a frame in flight is held past the deadline of its sender' (that operation may time out, nothing else may change and the late response must reach nobody); non-trivial = every execution (at least two tasks overlap)".into();
     rep.assumptions = vec![
         "schedules at await granularity (interleavings inside the PDU loop primitives are C01/C02/C06)".into(),
         "tasks are chosen to commute on device state; two tasks never use the same group's image".into(),
